@@ -60,6 +60,7 @@ func checkC08(c *Ctx) {
 	c08Chain(c)
 	c08Roots(c)
 	c08KeyUsage(c)
+	c08PreMaster(c)
 	c08SKE(c)
 	c08Finished(c)
 	c08ClientAuth(c)
@@ -433,6 +434,18 @@ func c08ClientAuth(c *Ctx) {
 			c.Evals++
 			r, _ := canReachSuccess(emptyEdges[0].to, &emptyEdges[0], successExits(f, spec), fieldValueCut(f, "ClientAuth", k))
 			c.Check(!r, rule, fname(f), "an empty client certificate list is rejected under "+pol, "", "with ClientAuth == "+pol+" a client that sends no certificate can still reach the successful end of the handshake", f.Pos())
+			// ... and the handshake cannot succeed without a non-empty Certificate message having been seen at all
+			// (a client that skips the Certificate message must not get past this point either)
+			c.Evals++
+			cut := fieldValueCut(f, "ClientAuth", k)
+			eb := emptyEdges[0].from
+			for _, sblk := range eb.Succs {
+				if sblk != emptyEdges[0].to {
+					cut[edge{eb, sblk}] = true
+				}
+			}
+			r2, _ := canReachSuccess(f.Blocks[0], nil, successExits(f, spec), cut)
+			c.Check(!r2, rule, fname(f), "under "+pol+" the handshake succeeds only after a non-empty Certificate message", "", "with ClientAuth == "+pol+" the successful end of the handshake is reachable without the Certificate message having been received and found non-empty (e.g. the message is treated as optional): a client without any certificate is accepted", f.Pos())
 		}
 		// CertificateVerify: with a client certificate, the signature check cannot be bypassed
 		vs := callsNamedIn(f, "verifyHandshakeSignature")
@@ -969,4 +982,66 @@ func c08KeyUsage(c *Ctx) {
 			c.Violated(rule, fname(f), fmt.Sprintf("key usage of certificate %d is tested", slot), "no branch on the certificate's KeyUsage was found for this slot", f.Pos())
 		}
 	}
+}
+
+// c08PreMaster: the RSA / SM2-ECC pre-master secret is version || 46 bytes drawn with io.ReadFull from the
+// configuration's random source into the tail of a fresh 48-byte buffer (proved lengths, not a pattern): only then
+// does decrypting the ClientKeyExchange prove possession of the server's (encryption) key. Also: every copy into a
+// freshly allocated buffer in the TLS code is complete.
+func c08PreMaster(c *Ctx) {
+	rule := "K-C08-premaster"
+	for _, name := range []string{"(*eccKeyAgreementGM).generateClientKeyExchange", "rsaKeyAgreement.generateClientKeyExchange"} {
+		f := c.Fn("gmtls", name)
+		if f == nil {
+			c.Missing(rule, "gmtls."+name, "method", "not found")
+			continue
+		}
+		lb := &LB{p: c.P, f: f, UsedContracts: map[string]bool{}}
+		n := 0
+		for _, ci := range allCalls(f) {
+			call, ok := ci.(*ssa.Call)
+			if !ok || calleeID(&call.Call) != "io.ReadFull" {
+				continue
+			}
+			n++
+			c.Evals++
+			dst := call.Call.Args[1]
+			okLen := lb.prove([]cons{ge(lb.lenLin(dst), linConst(46)), le(lb.lenLin(dst), linConst(46))}, call.Block(), nil, map[lvar]lin{}, 1)
+			// the reader is config.rand()
+			okSrc := false
+			if mi, isMI := call.Call.Args[0].(*ssa.Call); isMI && calleeNamed(mi, "rand") {
+				okSrc = true
+			}
+			// the buffer is the first result-bearing value: returned as the pre-master secret
+			okRet := false
+			root := dst
+			for {
+				if sl, isSl := root.(*ssa.Slice); isSl {
+					root = sl.X
+					continue
+				}
+				break
+			}
+			for _, b := range f.Blocks {
+				if ret, isRet := b.Instrs[len(b.Instrs)-1].(*ssa.Return); isRet && len(ret.Results) >= 1 {
+					r0 := unspill(ret.Results[0])
+					for {
+						if sl, isSl := r0.(*ssa.Slice); isSl {
+							r0 = sl.X
+							continue
+						}
+						break
+					}
+					if r0 == root {
+						okRet = true
+					}
+				}
+			}
+			c.Check(okLen && okSrc && okRet, rule, fname(f), "46 random bytes from Config.rand() fill the pre-master secret that is returned", "", fmt.Sprintf("the pre-master secret is not version || 46 fresh random bytes (ReadFull fills exactly 46 bytes: %v; source is config.rand(): %v; the filled buffer is the returned secret: %v): a constant or short secret lets a server without the private key complete the handshake", okLen, okSrc, okRet), call.Pos())
+		}
+		if n != 1 {
+			c.Undecided(rule, fname(f), "the random draw of the pre-master secret", fmt.Sprintf("%d io.ReadFull calls found", n), f.Pos())
+		}
+	}
+	completeCopies(c, "G-COPY-complete", "gmtls", func(f *ssa.Function) bool { return f.Name() == "marshal" || f.Name() == "unmarshal" })
 }
